@@ -341,6 +341,10 @@ func (r *UnitRun) finish(st *State, vals []Val, n *ast.ReturnStmt) {
 			}()
 		}
 	}
+	// publication of the tensors allocated in this call (not on error returns)
+	if !r.errReturnedVals(vals) {
+		r.publish(st, n)
+	}
 	// intermediate facts ("have"): stated over the locals as they are at this return, proved in order, then assumed
 	if len(r.unit.Have) > 0 && !r.errReturnedVals(vals) {
 		for i, c := range r.unit.Have {
@@ -1012,4 +1016,45 @@ func (r *UnitRun) typeCaseCond(st *State, v Val, te ast.Expr) (string, Val) {
 		return sx("is"+fn, v.T), r.fromTerm(sx("un"+fn, v.T), t)
 	}
 	panic(toolLimit("type switch on " + v.String()))
+}
+
+// publish: a CPUTensor allocated in this call becomes an abstract tensor when the call returns. Its shape and element
+// functions are *defined* by its fields at that moment (assumed), and the representation invariant that later calls
+// assume for every pre-existing tensor (axioms dimsLink / dataLink) is an obligation here.
+var publishAssume, publishOblige ast.Expr
+
+func (r *UnitRun) publish(st *State, n *ast.ReturnStmt) {
+	if publishAssume == nil {
+		publishAssume, _ = parser.ParseExpr(`rank(o) == len(o.dims) && forall(k, 0, len(o.dims), dim(o, k) == o.dims[k]) && nelems(o) == prod(o.dims, 0, len(o.dims)) && forallJ(J, el(o, J) == leafv(o.data, J, 0))`)
+		publishOblige, _ = parser.ParseExpr(`forall(k, 0, len(o.dims), o.dims[k] >= 1) && WF(o.data, arrOf(o.dims), 0, len(o.dims))`)
+	}
+	var node ast.Node
+	if n != nil {
+		node = n
+	}
+	for _, key := range sortedKeys(st.ghost) {
+		if !strings.HasPrefix(key, "alloc:") {
+			continue
+		}
+		o := st.ghost[key]
+		if o.Sort != "T" {
+			continue
+		}
+		env := &SpecEnv{run: r, st: st, old: r.entry, bound: map[string]Val{"o": o}}
+		func() {
+			defer func() {
+				if x := recover(); x != nil {
+					if se, ok := x.(specError); ok {
+						panic(toolLimit("publication of " + o.T + ": " + string(se)))
+					}
+					panic(x)
+				}
+			}()
+			goal := env.boolOf(publishOblige)
+			r.oblige(st, "repinv", sanitize(strings.SplitN(o.T, "!", 2)[0]), goal, node, "representation invariant of the tensor allocated here: positive dims, data well-formed for dims", nil)
+			st.assume(env.boolOf(publishAssume))
+			st.assume(sx("published", o.T))
+			delete(st.ghost, key)
+		}()
+	}
 }
